@@ -2319,7 +2319,15 @@ fn fn_sexp(b: &[u8], f: &JNode, upvars: u64) -> Option<String> {
     }
     let mut inner = vec![];
     for (j, g) in jget(f, "inner_functions")?.kids.iter().enumerate() {
-        inner.push(fn_sexp(b, g, inner_upvars.get(&(j as u64)).copied().unwrap_or(0))?);
+        // the number of upvars a function expects: its debug info lists them by name; without
+        // debug info fall back to the creating instruction
+        let declared = jget(g, "debug_info").and_then(|d| jget(d, "upvars")).map(|u| u.kids.len() as u64);
+        let up = match (declared, inner_upvars.get(&(j as u64)).copied()) {
+            (Some(d), Some(u)) if d == 0 && u > 0 && jget(g, "debug_info").and_then(|d| jget(d, "local_map")).map_or(true, |m| jget(m, "map").map_or(true, |x| x.kids.is_empty())) => u,
+            (Some(d), _) => d,
+            (None, u) => u.unwrap_or(0),
+        };
+        inner.push(fn_sexp(b, g, up)?);
     }
     Some(format!("(fn {} {} {} ({}) ({}) ({}))", max, upvars, nstr, recs.join(" "), instrs.join(" "), inner.join(" ")))
 }
@@ -2402,7 +2410,7 @@ fn judge_damaged(
             }
             LoadOutcome::Panic(m) => {
                 out.count(&format!("B:{}:panic", kind));
-                let operand = *kind == "number" && is_operand_path(path);
+                let operand = (*kind == "number" && is_operand_path(path)) || (*kind == "string" && path.ends_with("/strings"));
                 if operand {
                     out.count(&format!("B:unvalidated-operand:panic:{}", path));
                 }
@@ -2430,7 +2438,7 @@ fn judge_damaged(
             LoadOutcome::Crash(how) => {
                 out.count(&format!("B:{}:crash", kind));
                 let sig = how.split(' ').next().unwrap_or("").to_string();
-                let operand = *kind == "number" && is_operand_path(path);
+                let operand = (*kind == "number" && is_operand_path(path)) || (*kind == "string" && path.ends_with("/strings"));
                 if operand {
                     out.count(&format!("B:unvalidated-operand:{}:{}", sig, path));
                 }
